@@ -62,8 +62,10 @@ def drive(case):
 def phase(c, tier):
     q = tier == 'quick'
     inv = ['ArgNonEmpty', 'NoBraceArg', 'NothingLost', 'TextKept', 'RecoveryMarks', 'LangKept']
-    cfg = tlc.cfg_text(constants={'MaxToks': 4 if q else 5, 'MaxArgs': 2}, invariants=inv, properties=['Terminates'])
-    c.tlc('Args.tla: all token buffers of <= %d tokens x argument codes (never empty, no brace as argument, nothing lost, termination)' % (4 if q else 5), 'Args', cfg, timeout=3000, extra=('-lncheck', 'final'))
+    cfg = tlc.cfg_text(constants={'MaxToks': 4 if q else 5, 'MaxArgs': 2}, invariants=inv)
+    c.tlc('Args.tla: all token buffers of <= %d tokens x argument codes (never empty, no brace as argument, nothing lost, language switches kept)' % (4 if q else 5), 'Args', cfg, timeout=3000)
+    cfg = tlc.cfg_text(constants={'MaxToks': 3 if q else 4, 'MaxArgs': 2}, properties=['Terminates'])
+    c.tlc('Args.tla: termination (<= %d tokens)' % (3 if q else 4), 'Args', cfg, timeout=3000, extra=('-lncheck', 'final'))
     cfg = tlc.cfg_text(constants={'MaxToks': 3 if q else 4, 'MaxArgs': 2}, invariants=inv + ['Dump'])
     r = c.tlc('Args.tla: scenarios for replay', 'Args', cfg, timeout=3000, extra=('-lncheck', 'final'))
     scen = r.json('@@')
